@@ -25,7 +25,8 @@ RULE = ("exhaustive: every non-empty set of distinct strict orders over m <= 3 a
         "noise with an embedded 3-4 alternative core refuted by the reference (sp_restrict). "
         "On EVERY case the verdict is also compared with the mirror of the algorithm (op c03.elo, Model/ELO.v); volume block "
         "against the mirror: thousands of planted profiles m = 7..10, n = 2..3 (Walsh / Conitzer / correlated bottom-up) "
-        "and profiles whose elimination alternates single- and two-candidate rounds. "
+        "and profiles whose elimination alternates single- and two-candidate rounds; profiles with MANY distinct orders "
+        "(subsets of every size above m(m-1)/2+1 of the 2^(m-1) single-peaked orders of an axis, m = 4..7, +/- one bad order). "
         "non-trivial = >= 3 alternatives and >= 2 distinct orders")
 EXHAUSTIVE = {"quick": "all sets of distinct strict orders m<=3; all sets of <=3 orders m=4; both storage orders; all 2-voter "
                        "profiles m=4 under non-contiguous ids; all 2-voter profiles m=5 + common bottom",
@@ -314,6 +315,54 @@ def generate(tier, seed):
         if i % 3 == 0 and len(votes) > 1:
             add(rand_perm(rng, alts), votes[::-1], mults[::-1], style=style, rev=1)
 
+    # ---- MANY distinct orders: a single-peaked profile over m alternatives can hold up to 2^(m-1) distinct orders (more
+    #      than the single-crossing bound m(m-1)/2 + 1 from m = 4 on): the full set of single-peaked orders of a hidden
+    #      axis and random subsets of every size above the bound, arbitrary ids, shuffled storage order, multiplicities;
+    #      the same with one non-single-peaked order added; Walsh / Conitzer samples with many voters
+    def all_sp_orders(axis):
+        m_ = len(axis)
+        res = []
+        for bits in itertools.product([0, 1], repeat=m_ - 1):
+            l, r, rev = 0, m_ - 1, []
+            for b in bits:
+                if b:
+                    rev.append(axis[l]); l += 1
+                else:
+                    rev.append(axis[r]); r -= 1
+            rev.append(axis[l])
+            res.append(rev[::-1])
+        return res
+    for m in (4, 5, 6, 7):
+        bound = m * (m - 1) // 2 + 1
+        reps = {4: 12, 5: 8, 6: 4, 7: 1}[m] * (1 if not thorough else 4)
+        sizes = list(range(bound + 1, 2 ** (m - 1) + 1))
+        if m == 7:
+            sizes = sorted(rng.sample(sizes, 14 if not thorough else 40)) + [2 ** (m - 1)]
+        for size in sizes:
+            for rep in range(reps):
+                ids = rng.sample(range(0, rng.choice([m, 40, 10 ** 6])), m)
+                axis = rand_perm(rng, ids)
+                allo = all_sp_orders(axis)
+                sub = rng.sample(allo, size)
+                mults = [rng.choice([1, 1, 2, 7]) for _ in sub]
+                add(rand_perm(rng, ids), sub, mults, mode=(1 if m <= 6 else 0), manyorders=1)
+                # negative: replace one order by a ranking that is not single-peaked on the axis
+                bad = rand_perm(rng, ids)
+                if bad not in allo:
+                    neg = sub[:-1] + [bad]
+                    rng.shuffle(neg)
+                    add(rand_perm(rng, ids), neg, [1] * len(neg), mode=(1 if m <= 6 else 0), manyorders=1)
+    for i in range(400 if not thorough else 3000):
+        m = rng.randint(4, 6)
+        ids = rng.sample(range(0, rng.choice([m, 40, 10 ** 6])), m)
+        axis = rand_perm(rng, ids)
+        gen = conitzer if i % 2 == 0 else walsh
+        votes = distinct([gen(rng, axis) for _ in range(rng.randint(12, 60))])
+        if i % 5 == 4:
+            votes.append(rand_perm(rng, ids))
+            votes = distinct(votes)
+        add(rand_perm(rng, ids), votes, [rng.choice([1, 2, 3]) for _ in votes], manyvoters=1)
+
     # ---- VOLUME against the mirror (exact verdict oracle at every size, no enumeration): planted single-peaked
     #      profiles, m = 7..10, n = 2..3, arbitrary ids incl. 0; plus profiles whose elimination schedule alternates
     #      single-candidate and two-candidate rounds (stale state across rounds needs >= 7 alternatives), e.g.
@@ -510,6 +559,8 @@ def stats(c, r, m):
             if alternating(pat):
                 lab.append("m>=7: alternating single / two / single rounds (%s)" %
                            ("mirror SP" if m[-1][0] == 0 and m[-1][1][0] == 1 else "mirror notSP"))
+    if mm >= 4 and len(rankings) > mm * (mm - 1) // 2 + 1:
+        lab.append("more than m(m-1)/2+1 distinct orders (m=%d): %s" % (mm, "SP" if m[-1][0] == 0 and m[-1][1][0] == 1 else "notSP"))
     if c["tags"].get("vol"):
         lab.append("volume vs mirror %s n=%d" % (size, len(rankings)))
     me = m[-1]
